@@ -63,6 +63,11 @@ RecvOK ==
          Ev.k = "N" => (Ev.v = nrecv /\ Ev.u >= tsub + p2 + Ev.v * d)
     [] op = "timer" ->
          IF Ev.k = "N" THEN nrecv = 0 /\ Ev.u >= tsub + d ELSE Ev.k = "C" /\ nrecv = 1
+    [] op = "countedinterval" ->
+         \* RangeWithInterval / RepeatWithInterval / RangeWithStepAndInterval (values decoded to their index by the harness, p2 = the count):
+         \* the values of the definition in order, value k never before k+1 periods, Complete after exactly p2 values (or when the
+         \* subscription context is cancelled: Interval completes then)
+         IF Ev.k = "N" THEN Ev.v = nrecv /\ nrecv < p2 /\ Ev.u >= tsub + (Ev.v + 1) * d ELSE Ev.k = "C" /\ (nrecv = p2 \/ cancelAt >= 0)
     [] op = "throttle" ->
          Ev.k = "N" => /\ Emitted(Ev.v) /\ IdxOf(Ev.v) > lastIdx                     \* a source value, in source order
                        /\ (lastIdx > 0 => Ev.u >= emits[lastIdx].u + d)             \* at most one value per window
@@ -79,13 +84,17 @@ Step ==
   \/ /\ Is("sub") /\ tsub' = Ev.u /\ UNCHANGED <<emits, nrecv, lastIdx, srcTerm, outTerm, unsE, consumed, rus, inEmit, post, cancelAt, postCancel>>
   \/ /\ Is("emit") /\ emits' = Append(emits, [k |-> Ev.k, v |-> Ev.v, u |-> Ev.u])
      /\ inEmit' = IF unsE THEN "after" ELSE "before"
-     /\ srcTerm' = (srcTerm \/ Ev.k # "N") /\ UNCHANGED <<tsub, nrecv, lastIdx, outTerm, unsE, consumed, rus, post, cancelAt, postCancel>>
-  \/ /\ Is("emitE") /\ inEmit' = "no" /\ UNCHANGED <<tsub, emits, nrecv, lastIdx, srcTerm, outTerm, unsE, consumed, rus, post, cancelAt, postCancel>>
+     /\ UNCHANGED <<tsub, nrecv, lastIdx, srcTerm, outTerm, unsE, consumed, rus, post, cancelAt, postCancel>>
+  \* the source HAS terminated once its terminal call has returned: while that call is in flight a timer that fired just before it may still win
+  \* the destination (the source's terminal is then dropped) - "never once the source has terminated" is judged against returned calls
+  \/ /\ Is("emitE") /\ inEmit' = "no" /\ srcTerm' = (srcTerm \/ (emits # <<>> /\ emits[Len(emits)].k # "N"))
+     /\ UNCHANGED <<tsub, emits, nrecv, lastIdx, outTerm, unsE, consumed, rus, post, cancelAt, postCancel>>
   \/ /\ Is("recv")
      /\ ~outTerm                               \* grammar
      \* silence after unsubscription: only a notification whose emission began before Unsubscribe returned may still arrive
-     \* (inEmit = "before": the harness's emit call in flight started before unsubE; sources with their own goroutine: one tick in flight)
-     /\ unsE => (inEmit = "before" \/ (op \in {"interval", "intervalinitial", "timer", "samplesource", "sample", "buffertime", "buffertimecount", "delay"} /\ post = 0))
+     \* (inEmit = "before": the harness's emit call in flight started before unsubE; operators that deliver from a goroutine or timer of their own -
+     \* Timeout's time.AfterFunc included -: one notification in flight)
+     /\ unsE => (inEmit = "before" \/ (op \in {"interval", "intervalinitial", "timer", "samplesource", "countedinterval", "sample", "buffertime", "buffertimecount", "delay", "timeout"} /\ post = 0))
      /\ post' = IF unsE THEN post + 1 ELSE post
      /\ RecvOK
      /\ nrecv' = nrecv + 1
@@ -97,7 +106,7 @@ Step ==
      /\ (op \in {"buffertime", "buffertimecount"} /\ Ev.k = "C") => consumed = NVals
      \* the periodic sources fall silent once the subscription context is cancelled: a tick may have been in flight (two, to be safe against a starved
      \* goroutine whose select finds both the tick and the cancellation ready), a third value a whole period after the cancellation was not
-     /\ (cancelAt >= 0 /\ op \in {"interval", "intervalinitial"} /\ Ev.k = "N") => (postCancel <= 1 \/ Ev.u < cancelAt + d)
+     /\ (cancelAt >= 0 /\ op \in {"interval", "intervalinitial", "countedinterval"} /\ Ev.k = "N") => (postCancel <= 1 \/ Ev.u < cancelAt + d)
      /\ postCancel' = IF cancelAt >= 0 /\ Ev.k = "N" THEN postCancel + 1 ELSE postCancel
      /\ UNCHANGED <<tsub, emits, srcTerm, unsE, inEmit, cancelAt>>
   \* the subscription context is cancelled: no clause is relaxed by it (a delayed value still waits for its delay)
